@@ -59,4 +59,12 @@ theorem C01_finalExit_resets_as_in_source (env : Env) :
 theorem C06_load_discards_request_first_in_source :
     (Gen.loadSteps.takeWhile (fun st => st.1 != 3)).contains (0, 0) = true := by decide
 
+/-- **each reset is compiled under exactly the switch of the feature whose state it resets** — the request and the
+    registry unconditionally, the plan data under PLANS, the recorded transition under TRANSITION_HISTORY — in
+    `load()` and in the final exit alike (no reset of one feature sits inside another feature's `#if`) -/
+theorem C19_resets_guarded_by_own_feature :
+    ∀ st ∈ Gen.loadSteps ++ Gen.exitSteps,
+      (st.1 = 0 → st.2 = 0) ∧ (st.1 = 1 → st.2 = 1) ∧ (st.1 = 2 → st.2 = 2) ∧ (st.1 = 3 → st.2 = 0) ∧ (st.1 = 4 → st.2 = 0) := by
+  decide
+
 end FFSM2
